@@ -63,7 +63,12 @@ def execute(ctx, items, want_any=True, want_spec=True):
     """items: list of (case, algo).  Returns list of Run with all fields filled."""
     runs = []
     reqs = []
+    from . import sr as _sr
+
     for case, algo in items:
+        if _sr.TIMED_OUT:
+            # a solver call did not return (sr.watchdog): judge what was obtained so far, ask for nothing more
+            break
         r = Run(case, algo)
         # present="auto": node names / family names / the infinite-cost object vary with the case (sr.presentation)
         r.impl_all = strip(run_algo(case, algo, "all", present="auto"))
@@ -188,6 +193,9 @@ def judge_valid(res, r):
             # a failure is C01-C03's business unless it is the incomplete-mapping symptom
             if out["err"].startswith("cost:") or out["err"] in ("KeyError",):
                 res.violation(f"{r.algo} ({pol}) returns an incomplete mapping ({out['err']})",
+                              {"case": r.case, "algo": r.algo, "policy": pol})
+            elif out["err"] == "Timeout":
+                res.violation(f"{r.algo} ({pol}) returns nothing: {out.get('msg', '')}",
                               {"case": r.case, "algo": r.algo, "policy": pol})
             continue
         if not all(flags):
@@ -435,6 +443,10 @@ def inplace_history(res, case, other_costs, algo, policies=("all", "any"), what_
 
     from .sr import PLAIN, algorithms, build_input, canon_solution, costs_of, enc_cost, solution_key
 
+    from . import sr as _sr
+
+    if _sr.TIMED_OUT:
+        return False
     v2 = copy.deepcopy(case)
     v2["costs"] = other_costs
     for pol in policies:
@@ -447,12 +459,15 @@ def inplace_history(res, case, other_costs, algo, policies=("all", "any"), what_
             inp.costs.clear()
             inp.costs.update(costs)
             try:
-                with contextlib.redirect_stderr(io.StringIO()):
+                with _sr.watchdog(), contextlib.redirect_stderr(io.StringIO()):
                     rs = [algorithms()[algo](inp)] if algo == "lca" else \
                         list(algorithms()[algo](inp, getattr(RetentionPolicy, pol.upper())))
                 cs = sorted({enc_cost(o.cost()) for o in rs}, key=str)
                 got = {"cost": cs[0] if len(cs) == 1 else (None if not cs else cs),
                        "sols": sorted((canon_solution(o) for o in rs), key=solution_key)}
+            except _sr.SolverTimeout:
+                _sr.TIMED_OUT.append((algo, pol))
+                got = {"err": "Timeout"}
             except Exception as e:  # noqa
                 got = {"err": type(e).__name__}
             want = strip(run_algo(ref, algo, pol))
